@@ -261,12 +261,12 @@ func runC17(e *core.Env, s *c17Scenario) {
 		}
 	}
 	gap := time.Duration(maxGap + 2)
-	for iter := 0; running > 0 && !stop; iter++ {
-		before := progress
+	idle := simIdle{}
+	for running > 0 && !stop {
 		time.Sleep(gap)
 		synctest.Wait()
 		check()
-		if progress == before && running > 0 && !stop {
+		if idle.stalled(progress, gap) && running > 0 && !stop {
 			e.Violate("no_progress", "no get returned and nothing was replenished for %v although %d goroutines are unfinished", gap, running)
 			stop = true
 		}
